@@ -5,6 +5,7 @@ import BigtoolsModel.PyArr
 import BigtoolsModel.PyOob
 import BigtoolsModel.OverlapsGen
 import BigtoolsModel.PyBinsNoNan
+import BigtoolsModel.AtomsGen
 /-! # C20 — Python-binding array routines compute the documented per-base and binned values
 
 Property theorems (statements copied from the lemma modules, proofs by those lemmas). -/
@@ -136,3 +137,16 @@ theorem C20_entry_bins_never_nan_for_any_width (sm : Summary) (m : Int) (start :
 
 end PYN
 
+
+/-- **Tie to the source: the bin arithmetic is exact.** Every integer → float conversion in the four array routines of the Python
+    bindings (regenerated from pybigtools/src/lib.rs on every run) goes to `f64`, which holds every 32-bit coordinate, offset, bin
+    index and count exactly; the exact-integer bin borders of the theorems above are therefore the borders the code computes from.
+    (What remains outside the theorem: the rounding of the `f64` quotient `(end − start) / bins` itself, for widths that are not
+    integral — those requests are judged by the NaN / range oracle, see `C20_bins_never_nan_for_any_width`.) -/
+theorem C20_source_conversions_are_exact (x : Nat) (h : x < 2 ^ 32) :
+    (Gen.pyb_conv_to_array x ++ Gen.pyb_conv_to_array_bins x ++ Gen.pyb_conv_to_entry_array x ++
+      Gen.pyb_conv_to_entry_array_bins x).all (· == x) = true :=
+  PYC.gen_py_conversions_exact x h
+
+/-- non-vacuity of the exactness claim: `f32` would not do — 2^24 + 1 is a legal coordinate that `f32` cannot hold -/
+example : FR.f32 (2 ^ 24 + 1) ≠ 2 ^ 24 + 1 ∧ FR.f64 (2 ^ 24 + 1) = 2 ^ 24 + 1 := by decide
